@@ -458,6 +458,61 @@ def curated_special():
     out.append(('arg-let-read', [
         ('rule', 'start', None, ('seq', [('call', 'W', [('let', 'v', T, ('py', "('seen', v)"))]), ('call', 'W', [('let', 'v', T, ('where', T, ('py', 'lambda w: w == v')))])])),
         ('rule', 'W', ['p'], ('seq', [('ref', 'p'), ('opt', ('str', '!'))]))]))
+    # caller and callee spell a binding alike (parameter / let / field of the same name): each keeps its
+    # own value, also after the call returns
+    TOK = ('ref', 'Tok')
+    out.append(('clash-param-param', [
+        ('rule', 'start', None, ('call', 'Pair', [D])),
+        ('rule', 'Pair', ['x'], ('seq', [('call', 'Angle', [TOK]), ('ref', 'x'), ('opt', ('ref', 'x'))])),
+        ('rule', 'Angle', ['x'], ('right', ('str', '<'), ('left', ('ref', 'x'), ('str', '>'))))]))
+    out.append(('clash-let-param', [
+        ('rule', 'start', None, ('let', 'x', TOK, ('seq', [('call', 'Bang', [D]), R(1, 'x'), ('opt', ('call', 'Bang', [TOK])), R(2, 'x')]))),
+        ('rule', 'Bang', ['x'], ('left', ('ref', 'x'), ('str', '!')))]))
+    out.append(('clash-let-kwparam', [
+        ('rule', 'start', None, ('let', 'x', TOK, ('seq', [('call', 'Bang', [('kw', 'x', D)]), R(1, 'x')]))),
+        ('rule', 'Bang', ['x'], ('left', ('ref', 'x'), ('str', '!')))]))
+    out.append(('clash-let-valueparam', [
+        ('rule', 'start', None, ('let', 'x', TOK, ('seq', [('call', 'Val', [('py', "'k'")]), R(1, 'x'), ('call', 'Val', [('ref', 'x')]), R(2, 'x')]))),
+        ('rule', 'Val', ['x'], ('seq', [TOK, ('py', "('val', x)")]))]))
+    out.append(('clash-let-let', [
+        ('rule', 'start', None, ('let', 'v', TOK, ('seq', [('call', 'Inner', [D]), R(1, 'v'), ('rep', ('str', '!'), None, ('py', 'len(v)'))]))),
+        ('rule', 'Inner', ['p'], ('let', 'v', ('ref', 'p'), ('seq', [R(2, 'v'), TOK])))]))
+    out.append(('clash-field-param', [
+        ('class', 'start', None, [('field', 'x', TOK), ('field', 'y', ('call', 'Bang', [D])), ('field', 'z', R(1, 'x')),
+                                  ('field', 'w', ('opt', ('ref', 'Sub'))), ('field', 'u', R(2, 'x', 'y'))]),
+        ('class', 'Sub', None, [('field', 'x', ('call', 'Bang', [('str', 'b')])), ('field', 'y', R(3, 'x'))]),
+        ('rule', 'Bang', ['x'], ('left', ('ref', 'x'), ('str', '!')))]))
+    out.append(('clash-classtemplate', [
+        ('rule', 'start', None, ('let', 'x', TOK, ('seq', [('call', 'Box', [D]), R(1, 'x')]))),
+        ('class', 'Box', ['x'], [('field', 'v', ('ref', 'x')), ('pass', TOK), ('field', 'x2', ('opt', ('ref', 'x')))])]))
+    out.append(('clash-param-let-two-levels', [
+        ('rule', 'start', None, ('call', 'Outer', [TOK, ('py', "'o'")])),
+        ('rule', 'Outer', ['p', 'v'], ('seq', [('call', 'Inner', [D, ('py', "'i'")]), ('ref', 'p'), R(1, 'v'),
+                                               ('call', 'Inner', [('ref', 'p'), ('ref', 'v')]), R(2, 'v')])),
+        ('rule', 'Inner', ['p', 'v'], ('seq', [TOK, ('ref', 'p'), R(3, 'v')]))]))
+    # a compound argument reading several bound names, first used in every order (the helper built for
+    # the argument receives the names it captures)
+    import itertools
+    for perm in itertools.permutations(['aa', 'mm', 'zz']):
+        reads = [R(10 + i, n) for i, n in enumerate(perm)]
+        out.append(('capture-order-let-' + ''.join(n[0] for n in perm), [
+            ('rule', 'start', None, ('let', 'zz', TOK, ('let', 'aa', D, ('let', 'mm', ('str', '-'),
+                                     ('call', 'W', [('seq', [TOK] + reads + [R(20, *perm)])]))))),
+            ('rule', 'W', ['p'], ('seq', [('ref', 'p'), ('opt', ('str', '!'))]))]))
+        out.append(('capture-order-param-' + ''.join(n[0] for n in perm), [
+            ('rule', 'start', None, ('call', 'Outer', [('py', "'z'"), ('py', '1'), ('py', "'m'")])),
+            ('rule', 'Outer', ['zz', 'aa', 'mm'], ('call', 'W', [('seq', [TOK] + reads)])),
+            ('rule', 'W', ['p'], ('seq', [('ref', 'p'), ('opt', ('str', '!'))]))]))
+        out.append(('capture-order-field-' + ''.join(n[0] for n in perm), [
+            ('class', 'start', None, [('field', 'zz', TOK), ('field', 'aa', D), ('field', 'mm', ('opt', ('str', '-'))),
+                                      ('field', 'got', ('call', 'W', [('seq', [TOK] + reads)]))]),
+            ('rule', 'W', ['p'], ('seq', [('ref', 'p'), ('opt', ('str', '!'))]))]))
+    # the same with a count and a where predicate as the uses
+    out.append(('capture-order-count-where', [
+        ('rule', 'start', None, ('let', 'size', D, ('let', 'mark', TOK,
+                                 ('call', 'W', [('apply', ('rep', ('where', TOK, ('py', 'lambda t: t != mark')), ('name', 'size'), ('name', 'size')),
+                                                           ('py', 'lambda xs: (size, mark, xs)'))])))),
+        ('rule', 'W', ['p'], ('right', ('str', '['), ('left', ('ref', 'p'), ('str', ']'))))]))
     # a parameter spelled like an existing rule or class denotes the argument, not that rule
     out.append(('param-shadows-rule', [
         ('rule', 'start', None, ('seq', [('call', 'P', [('ref', 'Num')]), ('str', ','), ('call', 'P', [('str', 'x')]), ('opt', ('ref', 'Word'))])),
